@@ -23,12 +23,20 @@ w1 == <<"a", "b">>
 w2 == <<"b", "a">>
 w3 == <<"e'">>
 ty == <<"a">>
+wl == <<"LF", "a", "b">>
+wc == <<"a", "cm", "b", "sc", "a">>
 Cards == {
     [FN |-> <<I(w1, <<>>)>>],
     [FN |-> <<I(w2, <<>>)>>, EMAIL |-> <<I(w1, <<>>)>>],
     [FN |-> <<I(w1, <<>>)>>, EMAIL |-> <<I(w2, ty)>>],
     [FN |-> <<I(w3, <<>>)>>, EMAIL |-> <<I(w2, <<>>), I(w1, ty)>>],
-    [FN |-> <<I(w2, <<>>)>>, EMAIL |-> <<I(w3, ty), I(w2, <<>>)>>, NOTE |-> <<I(w1, <<>>)>>]}
+    [FN |-> <<I(w2, <<>>)>>, EMAIL |-> <<I(w3, ty), I(w2, <<>>)>>, NOTE |-> <<I(w1, <<>>)>>],
+    \* a value so long that the card file folds its line in the middle of "a b" ("LF" is a filler
+    \* of 69 letters: with the property name the fold comes right after the "a"), and a value
+    \* with characters the card file escapes ("cm" a comma, "sc" a semicolon)
+    [FN |-> <<I(w3, <<>>)>>, NOTE |-> <<I(wl, <<>>)>>],
+    [FN |-> <<I(w3, <<>>)>>, NOTE |-> <<I(wc, <<>>)>>]}
+
 C(n) == [type |-> "contains", coll |-> "i;unicode-casemap", neg |-> FALSE, needle |-> n]
 NC(n) == [type |-> "contains", coll |-> "i;unicode-casemap", neg |-> TRUE, needle |-> n]
 NoP == <<>>
@@ -45,7 +53,11 @@ PropFilters == {
     PF("EMAIL", FALSE, "allof", <<C(w1), C(w3)>>, NoP),
     PF("EMAIL", FALSE, "anyof", <<>>, <<P(TRUE, Off)>>), PF("EMAIL", FALSE, "anyof", <<>>, <<P(FALSE, Off)>>),
     PF("EMAIL", FALSE, "anyof", <<>>, <<P(FALSE, On(C(ty)))>>),
-    PF("EMAIL", FALSE, "allof", <<C(w1)>>, <<P(FALSE, Off)>>), PF("EMAIL", FALSE, "anyof", <<C(w1)>>, <<P(FALSE, Off)>>)}
+    PF("EMAIL", FALSE, "allof", <<C(w1)>>, <<P(FALSE, Off)>>), PF("EMAIL", FALSE, "anyof", <<C(w1)>>, <<P(FALSE, Off)>>),
+    PF("NOTE", FALSE, "anyof", <<C(w1)>>, NoP), PF("NOTE", FALSE, "anyof", <<[C(wl) EXCEPT !.type = "equals"]>>, NoP),
+    PF("NOTE", FALSE, "anyof", <<C(<<"cm", "b">>)>>, NoP), PF("NOTE", FALSE, "anyof", <<C(<<"b", "sc">>)>>, NoP),
+    PF("NOTE", FALSE, "anyof", <<[C(wc) EXCEPT !.type = "equals"]>>, NoP),
+    PF("NOTE", FALSE, "anyof", <<[C(<<"sc", "a">>) EXCEPT !.type = "ends-with"]>>, NoP)}
 Filters == {[test |-> t, pfs |-> <<p>>] : t \in {"anyof"}, p \in PropFilters}
            \cup {[test |-> t, pfs |-> <<p, q>>] : t \in {"anyof", "allof"},
                     p \in {PF("FN", FALSE, "anyof", <<C(w1)>>, NoP), PF("NOTE", TRUE, "anyof", <<>>, NoP)},
